@@ -2,7 +2,7 @@
    Iter.Scan, RowData on truncated / mutated / random bodies); added here: Unmarshal into the canonical
    destination, getCassandraType, splitCompositeTypes, parseType on arbitrary strings.  The compared
    observable is the outcome class (ok / returned error / panic with its site) and, when ok, the value. *)
-From GocqlV Require Import Lib.Base Gen.Consts C04.Model C04.Spec C04.Corr C05.Model.
+From GocqlV Require Import Lib.Base Gen.Consts C04.Model C04.Spec C04.Corr C05.Model C05.Conn.
 
 Definition type_result_eq_dec : forall a b : type_result, {a = b} + {a <> b}.
 Proof. deq. Defined.
@@ -35,13 +35,44 @@ Definition res_tr_eqb (a b : res type_result) : bool :=
   | _, _ => false
   end.
 
+(* what the parent process observes of a child running a connection scenario *)
+Inductive proc_outcome := PEstablished | PError | PCrashed.
+
+Definition proc_eqb (a b : proc_outcome) : bool :=
+  match a, b with PEstablished, PEstablished | PError, PError | PCrashed, PCrashed => true | _, _ => false end.
+
+Definition proc_of_handshake (o : houtcome) : proc_outcome :=
+  match o with
+  | HEstablished => PEstablished
+  | HFailed | HWaiting => PError      (* a missing reply ends the attempt with the connect timeout *)
+  | HCrash => PCrashed
+  end.
+
+(* one heartbeat round: does the process survive, and is a connection closed / replaced *)
+Definition heartbeat_obs (control : bool) (k : fkind) : proc_outcome * bool :=
+  let conn := hb_run true 0 [k] in
+  let ctl := if control then ctl_run true [k] else CtlOk in
+  let ctl1 := if control then ctl_step true k else CtlOk in
+  match conn, ctl with
+  | HbCrash, _ | _, CtlCrash => (PCrashed, true)
+  | HbClosed, _ => (PEstablished, true)
+  | HbRunning _, _ => (PEstablished, match ctl1 with CtlReconnect => true | _ => false end)
+  end.
+
 Inductive case :=
 | CF (c : C04.Corr.case)
 (* v, err := info.NewWithError(); Unmarshal(info, data, v); proto = the version stored in the type *)
 | CUnmarshal (proto : Z) (t : tinfo) (data : option bytes) (impl : res unit)
 | CGetType (name : bytes) (impl : res tinfo)               (* getCassandraType, ASCII names *)
 | CSplit (name : bytes) (impl : list bytes)                (* splitCompositeTypes, ASCII names *)
-| CParseType (def : bytes) (impl : res type_result).       (* parseType *)
+| CParseType (def : bytes) (impl : res type_result)        (* parseType *)
+(* NewSession against a scripted node answering the handshake requests of the first connection with the given
+   kinds, in a child process: outcome of the process and number of handshake requests the node received *)
+| CHandshake (a : authcfg) (replies : list fkind) (impl : proc_outcome) (nreq : nat)
+(* the first heartbeat round of an established connection answered with one kind: pool connection
+   (Conn.heartBeat) or control connection (Conn.heartBeat and controlConn.heartBeat); outcome of the process
+   and whether the driver closed a connection *)
+| CHeartbeat (control : bool) (k : fkind) (impl : proc_outcome) (closed : bool).
 
 Definition check (c : case) : bool :=
   match c with
@@ -50,6 +81,12 @@ Definition check (c : case) : bool :=
   | CGetType name impl => res_tinfo_eqb (get_cassandra_type_top name) impl
   | CSplit name impl => dec (list_eq_dec bytes_eq_dec (split_composite_types name) impl)
   | CParseType def impl => res_tr_eqb (parse_type def) impl
+  | CHandshake a replies impl nreq =>
+      let r := handshake true a replies in
+      proc_eqb (proc_of_handshake (fst r)) impl && Nat.eqb (snd r) nreq
+  | CHeartbeat control k impl closed =>
+      let r := heartbeat_obs control k in
+      proc_eqb (fst r) impl && Bool.eqb (snd r) closed
   end.
 
 Definition run (cs : list case) : list N := mismatches check cs.
